@@ -568,6 +568,12 @@ class Monitor:
         self._in_domain = in_domain
         self.stats["checked"] += 1
         applicable = [o for o in spec.outcomes if holds(o.cond)]
+        if len(applicable) == 0 and any(not holds(z3.Not(o.cond)) for o in spec.outcomes):
+            # some outcome condition is neither provable nor refutable from the concrete facts (it mentions an uninterpreted
+            # class-level predicate such as "the class provides this attribute"): the call cannot be judged at run time
+            self.stats["checked"] -= 1
+            self.stats["skipped_pre"] += 1
+            return False
         if len(applicable) != 1:
             return self.fail(qualname, f"{len(applicable)} outcomes apply (contract conditions must partition)", conc)
         o = applicable[0]
